@@ -1619,7 +1619,8 @@ class Interp:
             if isinstance(c.v, tuple) and T.TYPES.get(c.v) in INT_TYS and c.v[0] != 'int':
                 if all(c.v != hv for hv, _ in mapping):
                     others.add(c.v)
-        others = sorted(others, key=repr)[:12]
+        # (bounded; lengths and entry values first - they are what positions are compared with)
+        others = sorted(others, key=lambda t: (0 if t[0] == 'len' else 1, repr(t)))[:16]
         cands = []
         hvs = [hv for hv, _ in ints]
         for i, h in enumerate(hvs):
@@ -1631,6 +1632,22 @@ class Interp:
                 cands += [T.mk_cmp('le', I(k), h)]
         for hv, ev in bools:
             cands += [hv, T.mk_not(hv)]
+        # iterators: the position stays within the sequence; a zipped partner advances in lock step within its own
+        def iters(v, depth=0):
+            if isinstance(v, Iter):
+                yield v
+            elif isinstance(v, Ref) and depth < 3:
+                try:
+                    yield from iters(self.load(s0, v.cell, v.path), depth + 1)
+                except Exception:
+                    return
+        for c in f0.cells:
+            for it in iters(c.v):
+                if isinstance(it.pos, tuple) and it.pos[0] == 'var':
+                    cands.append(T.mk_cmp('le', it.pos, it.end))
+                    if it.zipped is not None:
+                        z = it.zipped
+                        cands.append(T.mk_cmp('le', T.mk_add(z[1], T.mk_sub(it.pos, z[3])), z[2]))
         return [c for c in cands if not T.is_bool(c)]
 
     def eval_promoted(self, path, idx):
